@@ -11,45 +11,48 @@ def sh(cmd, **kw):
 
 
 def main(src, sid, prop, checks):
+    """Everything runs on a private copy of /repo's HEAD (VERIF_REPO for the checks): /repo itself is never touched."""
     dst = os.path.join(V, 'seeded', sid)
     os.makedirs(dst, exist_ok=True)
     for f in ('patch.diff', 'demo.py', 'notes.md'):
         if os.path.exists(os.path.join(src, f)):
             shutil.copy(os.path.join(src, f), os.path.join(dst, f))
     patch = os.path.join(dst, 'patch.diff')
-    env = dict(os.environ, PYTHONPATH='/repo', PYTHONDONTWRITEBYTECODE='1')
-    meta = {'id': sid, 'property': prop, 'source': 'independent sub-agent given only the property text and a scratch worktree'}
-    st = sh('git -C /repo status --porcelain -- segno').stdout.strip()
-    assert not st, 'repo not clean'
-    r = sh('cd /tmp && /venv/bin/python %s/demo.py' % dst, env=env)
-    meta['demo_without_change'] = {'exit': r.returncode}
-    ap = sh('git -C /repo apply %s' % patch)
-    if ap.returncode:
-        meta['applies'] = False
-        meta['apply_error'] = ap.stderr[-300:]
-        json.dump(meta, open(os.path.join(dst, 'meta.json'), 'w'), indent=1)
-        print(sid, 'PATCH DOES NOT APPLY')
-        return
+    copy = '/root/scratch/seedimport-%d' % os.getpid()
+    shutil.rmtree(copy, ignore_errors=True)
+    os.makedirs(copy)
+    sh('git -C /repo archive --format=tar HEAD | tar -x -C %s' % copy)
+    env = dict(os.environ, PYTHONPATH=copy, PYTHONDONTWRITEBYTECODE='1')
+    meta = {'id': sid, 'property': prop, 'source': 'independent sub-agent given only the property text and a scratch worktree',
+            'imported_at_head': sh('git -C /repo rev-parse --short HEAD').stdout.strip()}
     try:
+        r = sh('cd /tmp && /venv/bin/python %s/demo.py' % dst, env=env)
+        meta['demo_without_change'] = {'exit': r.returncode}
+        ap = sh('cd %s && patch -p1 -s < %s' % (copy, patch))
+        if ap.returncode:
+            meta['applies'] = False
+            meta['apply_error'] = (ap.stdout + ap.stderr)[-300:]
+            json.dump(meta, open(os.path.join(dst, 'meta.json'), 'w'), indent=1)
+            print(sid, 'PATCH DOES NOT APPLY')
+            return
         meta['applies'] = True
-        r = sh('cd /repo && /venv/bin/python -m pytest -q -p no:cacheprovider 2>&1 | tail -1')
+        r = sh('cd %s && /venv/bin/python -m pytest -q -p no:cacheprovider 2>&1 | tail -1' % copy, env=env)
         meta['suite_with_change'] = r.stdout.strip()
         r = sh('cd /tmp && /venv/bin/python %s/demo.py' % dst, env=env)
         meta['demo_with_change'] = {'exit': r.returncode, 'tail': (r.stdout + r.stderr)[-300:]}
         meta['checks'] = {}
         for c in checks:
             t = time.time()
-            r = sh('cd %s && /venv/bin/python -m vmon check %s --tier quick' % (V, c))
+            r = sh('cd %s && VERIF_REPO=%s /venv/bin/python -m vmon check %s --tier quick' % (V, copy, c))
             viol = [l for l in r.stdout.splitlines() if l.startswith('  deviation')][:2]
             meta['checks'][c] = {'exit': r.returncode, 'caught': r.returncode == 1, 'wall_s': round(time.time() - t, 1),
                                  'first_deviation': viol[0][:300] if viol else None}
     finally:
-        sh('git -C /repo checkout -- segno')
+        shutil.rmtree(copy, ignore_errors=True)
     meta['caught_by'] = sorted(c for c, v in meta.get('checks', {}).items() if v['caught'])
-    notes = open(os.path.join(dst, 'notes.md')).read() if os.path.exists(os.path.join(dst, 'notes.md')) else ''
     meta['needs_to_manifest'] = 'see notes.md'
-    meta['ran'] = ['git -C /repo apply patch.diff', 'unedited test suite', 'demo.py with and without the change',
-                   'python -m vmon check <id> --tier quick for: ' + ' '.join(checks), 'git -C /repo checkout -- segno']
+    meta['ran'] = ['patch applied to a scratch copy of /repo HEAD', 'unedited test suite', 'demo.py with and without the change',
+                   'python -m vmon check <id> --tier quick (VERIF_REPO=scratch copy) for: ' + ' '.join(checks)]
     json.dump(meta, open(os.path.join(dst, 'meta.json'), 'w'), indent=1)
     print(sid, 'suite:', meta['suite_with_change'][:30], 'demo without/with:', meta['demo_without_change']['exit'], meta['demo_with_change']['exit'],
           'caught by:', meta['caught_by'])
